@@ -333,8 +333,260 @@ class _InlineTemps(ast.NodeTransformer):
     visit_AsyncFunctionDef = visit_FunctionDef
 
 
+class _CanonFn(ast.NodeTransformer):
+    """Function-level canonical forms (they need the set of names used in the whole function):
+       if any(P(x) for x in IT): BODY-ending-in-return/raise   ->   for x in IT: if P(x): BODY
+           (x is the comprehension variable, not otherwise a name of the function; any() stops at the first hit and BODY leaves the
+            function, so both forms evaluate P on the same prefix of IT and run BODY once)
+       i = len(L) - 1; while i >= 0: BODY(L[i]); i -= 1          ->   for <v> in reversed(L): BODY(<v>)
+       i = 0; while i < len(L): BODY(L[i]); i += 1               ->   for <v> in L: BODY(<v>)
+           (i is read only as L[i] inside BODY and nowhere after the loop, BODY has no continue/break-else and does not rebind or mutate L)"""
+
+    def visit_FunctionDef(self, node):
+        self.generic_visit(node)
+        names = {}
+        for x in ast.walk(node):
+            if isinstance(x, ast.Name):
+                names[x.id] = names.get(x.id, 0) + 1
+            elif isinstance(x, ast.arg):
+                names[x.arg] = names.get(x.arg, 0) + 1
+        self._names = names
+        self._fn = node
+        node.body = self._block(node.body)
+        return node
+
+    visit_AsyncFunctionDef = visit_FunctionDef
+
+    def _block(self, body):
+        out = []
+        i = 0
+        while i < len(body):
+            st = body[i]
+            for f in ("body", "orelse", "finalbody"):
+                b = getattr(st, f, None)
+                if isinstance(b, list) and b and isinstance(b[0], ast.stmt) and not isinstance(st, (ast.FunctionDef, ast.AsyncFunctionDef, ast.ClassDef)):
+                    setattr(st, f, self._block(b))
+            if isinstance(st, ast.Try):
+                for h in st.handlers:
+                    h.body = self._block(h.body)
+            r = self._any_if(st)
+            if r is not None:
+                out.append(r)
+                i += 1
+                continue
+            if i + 1 < len(body):
+                r = self._index_while(st, body[i + 1])
+                if r is not None:
+                    out.append(r)
+                    i += 2
+                    continue
+            out.append(st)
+            i += 1
+        return out
+
+    @staticmethod
+    def _always_leaves(body):
+        last = body[-1]
+        if isinstance(last, (ast.Return, ast.Raise)):
+            return True
+        if isinstance(last, ast.If) and last.orelse:
+            return _CanonFn._always_leaves(last.body) and _CanonFn._always_leaves(last.orelse)
+        return False
+
+    def _any_if(self, st):
+        if not (isinstance(st, ast.If) and not st.orelse and isinstance(st.test, ast.Call) and isinstance(st.test.func, ast.Name) and st.test.func.id == "any"
+                and len(st.test.args) == 1 and not st.test.keywords and isinstance(st.test.args[0], (ast.GeneratorExp, ast.ListComp))):
+            return None
+        g = st.test.args[0]
+        if len(g.generators) != 1 or g.generators[0].ifs or g.generators[0].is_async or not isinstance(g.generators[0].target, ast.Name):
+            return None
+        var = g.generators[0].target.id
+        inside = sum(1 for x in ast.walk(g) if isinstance(x, ast.Name) and x.id == var)
+        if self._names.get(var, 0) != inside or not self._always_leaves(st.body):
+            return None
+        inner = ast.copy_location(ast.If(test=g.elt, body=st.body, orelse=[]), st)
+        return ast.copy_location(ast.For(target=ast.Name(id=var, ctx=ast.Store()), iter=g.generators[0].iter, body=[inner], orelse=[], type_comment=None), st)
+
+    def _index_while(self, init, loop):
+        if not (isinstance(init, ast.Assign) and len(init.targets) == 1 and isinstance(init.targets[0], ast.Name) and isinstance(loop, ast.While) and not loop.orelse
+                and isinstance(loop.test, ast.Compare) and len(loop.test.ops) == 1 and isinstance(loop.test.left, ast.Name) and loop.test.left.id == init.targets[0].id and len(loop.body) >= 2):
+            return None
+        iv = init.targets[0].id
+        step = loop.body[-1]
+        if not (isinstance(step, ast.AugAssign) and isinstance(step.target, ast.Name) and step.target.id == iv and isinstance(step.value, ast.Constant) and step.value.value == 1):
+            return None
+        def is_len(e):
+            return isinstance(e, ast.Call) and isinstance(e.func, ast.Name) and e.func.id == "len" and len(e.args) == 1 and isinstance(e.args[0], ast.Name) and e.args[0].id
+        down = (isinstance(step.op, ast.Sub) and isinstance(loop.test.ops[0], ast.GtE) and isinstance(loop.test.comparators[0], ast.Constant) and loop.test.comparators[0].value == 0
+                and isinstance(init.value, ast.BinOp) and isinstance(init.value.op, ast.Sub) and isinstance(init.value.right, ast.Constant) and init.value.right.value == 1 and is_len(init.value.left))
+        up = (isinstance(step.op, ast.Add) and isinstance(loop.test.ops[0], ast.Lt) and is_len(loop.test.comparators[0]) and isinstance(init.value, ast.Constant) and init.value.value == 0)
+        seq = is_len(init.value.left) if down else (is_len(loop.test.comparators[0]) if up else None)
+        if not seq:
+            return None
+        body = loop.body[:-1]
+        uses = 0
+        for b in body:
+            for x in ast.walk(b):
+                if isinstance(x, (ast.Continue, ast.Break, ast.FunctionDef, ast.Lambda)):
+                    return None
+                if isinstance(x, ast.Name) and x.id == seq and not isinstance(x.ctx, ast.Load):
+                    return None
+                if isinstance(x, ast.Attribute) and isinstance(x.value, ast.Name) and x.value.id == seq:
+                    return None  # seq.method(...) may mutate it
+                if isinstance(x, ast.Subscript) and isinstance(x.value, ast.Name) and x.value.id == seq:
+                    if not (isinstance(x.slice, ast.Name) and x.slice.id == iv and isinstance(x.ctx, ast.Load)):
+                        return None
+                    uses += 1
+        # i: the init, the test, the step (2 = target only), and the subscripts - nothing else, in particular nothing after the loop
+        total = self._names.get(iv, 0)
+        if uses == 0 or total != 1 + 1 + 1 + uses:
+            return None
+        fresh = f"{seq}_item"
+        if fresh in self._names:
+            return None
+
+        class Sub(ast.NodeTransformer):
+            def visit_Subscript(self2, x):
+                if isinstance(x.value, ast.Name) and x.value.id == seq and isinstance(x.slice, ast.Name) and x.slice.id == iv:
+                    return ast.copy_location(ast.Name(id=fresh, ctx=ast.Load()), x)
+                return self2.generic_visit(x)
+
+        body = [Sub().visit(b) for b in body]
+        it = ast.Name(id=seq, ctx=ast.Load())
+        if down:
+            it = ast.Call(func=ast.Name(id="reversed", ctx=ast.Load()), args=[it], keywords=[])
+        return ast.copy_location(ast.For(target=ast.Name(id=fresh, ctx=ast.Store()), iter=it, body=body, orelse=[], type_comment=None), loop)
+
+
+def _pinned_functions():
+    path = os.path.join(os.path.dirname(os.path.abspath(__file__)), "pinned_functions.txt")
+    try:
+        with open(path) as f:
+            return {l.strip() for l in f if l.strip() and not l.startswith("#")}
+    except OSError:
+        return None
+
+
+def _inline_extracted_procedures(trees):
+    """A *new* private procedure (a function that is not in the pinned tree's function list) with one call site is read as its body
+    at that site: `self._h(a, b)` / `_h(a, b)` as an expression statement, in a method of the same class / a function of the same
+    module, where the procedure has plain positional parameters, no decorator, no return/yield/nested def/global, the arguments
+    are names, attribute chains or constants, its name occurs nowhere else in the package, and its locals do not collide with the
+    caller's names.  Extracting a block into a helper is then invisible to the rules (the helper is removed from the module).
+    trees: {module name: ast.Module}; modified in place."""
+    import copy
+
+    pinned = _pinned_functions()
+    if pinned is None:
+        return
+    occurrences = {}
+    for tree in trees.values():
+        for x in ast.walk(tree):
+            n = x.attr if isinstance(x, ast.Attribute) else x.id if isinstance(x, ast.Name) else x.name if isinstance(x, (ast.FunctionDef, ast.AsyncFunctionDef)) else None
+            if n and n.startswith("_") and not n.startswith("__"):
+                occurrences[n] = occurrences.get(n, 0) + 1
+            elif isinstance(x, ast.Constant) and isinstance(x.value, str) and x.value.startswith("_") and x.value.isidentifier():
+                occurrences[x.value] = occurrences.get(x.value, 0) + 1
+            elif isinstance(x, ast.alias) and x.name.startswith("_"):
+                occurrences[x.name] = occurrences.get(x.name, 0) + 1
+
+    def pure(e):
+        return _Canon._pure(e)
+
+    def candidates(owner_body, prefix, is_class):
+        for fn in list(owner_body):
+            if not isinstance(fn, ast.FunctionDef) or not fn.name.startswith("_") or fn.name.startswith("__"):
+                continue
+            if f"{prefix}.{fn.name}" in pinned or occurrences.get(fn.name, 0) != 2 or fn.decorator_list:
+                continue
+            a = fn.args
+            if a.vararg or a.kwarg or a.kwonlyargs or a.defaults or a.posonlyargs:
+                continue
+            params = [x.arg for x in a.args]
+            if is_class:
+                if not params or params[0] != "self":
+                    continue
+                params = params[1:]
+            if any(isinstance(x, (ast.Return, ast.Yield, ast.YieldFrom, ast.FunctionDef, ast.AsyncFunctionDef, ast.Lambda, ast.Global, ast.Nonlocal, ast.ClassDef, ast.Await)) for b in fn.body for x in ast.walk(b)):
+                continue
+            yield fn, params
+
+    def try_inline(owner_body, prefix, is_class):
+        for fn, params in candidates(owner_body, prefix, is_class):
+            site = None
+            for caller in owner_body:
+                if caller is fn or not isinstance(caller, (ast.FunctionDef, ast.AsyncFunctionDef)):
+                    continue
+                for parent in ast.walk(caller):
+                    for f in ("body", "orelse", "finalbody"):
+                        blk = getattr(parent, f, None)
+                        if not (isinstance(blk, list) and blk and isinstance(blk[0], ast.stmt)):
+                            continue
+                        for i, st in enumerate(blk):
+                            if not (isinstance(st, ast.Expr) and isinstance(st.value, ast.Call)):
+                                continue
+                            c = st.value
+                            hit = (isinstance(c.func, ast.Attribute) and c.func.attr == fn.name and isinstance(c.func.value, ast.Name) and c.func.value.id == "self") if is_class else (isinstance(c.func, ast.Name) and c.func.id == fn.name)
+                            if hit:
+                                site = (caller, parent, blk, i, c)
+            if site is None:
+                continue
+            caller, parent, blk, i, c = site
+            if isinstance(parent, (ast.FunctionDef, ast.AsyncFunctionDef)) and parent is not caller:
+                continue
+            if any(isinstance(x, (ast.FunctionDef, ast.AsyncFunctionDef, ast.Lambda)) and x is not caller and any(y is c for y in ast.walk(x)) for x in ast.walk(caller)):
+                continue
+            if any(isinstance(x, ast.Starred) for x in c.args) or any(k.arg is None or k.arg not in params for k in c.keywords) or len(c.args) + len(c.keywords) != len(params):
+                continue
+            bound = dict(zip(params, c.args))
+            bound.update({k.arg: k.value for k in c.keywords})
+            if len(bound) != len(params) or not all(pure(v) for v in bound.values()):
+                continue
+            caller_names = {x.id for x in ast.walk(caller) if isinstance(x, ast.Name)} | {x.arg for x in ast.walk(caller) if isinstance(x, ast.arg)}
+            stored = {x.id for b in fn.body for x in ast.walk(b) if isinstance(x, ast.Name) and not isinstance(x.ctx, ast.Load)}
+            stored |= {x.name for b in fn.body for x in ast.walk(b) if isinstance(x, ast.ExceptHandler) and x.name}
+            if stored & set(params):
+                continue
+            # a local of the procedure that is also a name of the caller gets a fresh name (the two were different variables)
+            rename = {}
+            for n in sorted(stored & caller_names):
+                k = 1
+                while f"{n}_{k}" in caller_names or f"{n}_{k}" in stored:
+                    k += 1
+                rename[n] = f"{n}_{k}"
+            # a parameter is replaced by its (pure) argument; an argument that is a bare name equal to the parameter needs nothing
+            arg_names = {x.id for v in bound.values() for x in ast.walk(v) if isinstance(x, ast.Name)}
+            if arg_names & stored:
+                continue
+
+            class Sub(ast.NodeTransformer):
+                def visit_Name(self2, x):
+                    if x.id in bound and isinstance(x.ctx, ast.Load):
+                        return ast.copy_location(copy.deepcopy(bound[x.id]), x)
+                    if x.id in rename:
+                        x.id = rename[x.id]
+                    return x
+
+                def visit_ExceptHandler(self2, x):
+                    if x.name in rename:
+                        x.name = rename[x.name]
+                    return self2.generic_visit(x)
+
+            body = [Sub().visit(copy.deepcopy(b)) for b in fn.body]
+            body = [b for b in body if not (isinstance(b, ast.Expr) and isinstance(b.value, ast.Constant) and isinstance(b.value.value, str))] or [ast.copy_location(ast.Pass(), c)]
+            blk[i:i + 1] = body
+            owner_body.remove(fn)
+
+    for name, tree in trees.items():
+        try_inline(tree.body, name, False)
+        for node in tree.body:
+            if isinstance(node, ast.ClassDef):
+                try_inline(node.body, f"{name}.{node.name}", True)
+
+
 def _canonicalise(tree):
     tree = _Canon().visit(tree)
+    tree = _CanonFn().visit(tree)
     tree = _InlineTemps().visit(tree)
     return ast.fix_missing_locations(tree)
 
@@ -354,6 +606,7 @@ class Index:
         root = os.path.join(self.repo, PKG)
         if not os.path.isdir(root):
             raise AnalysisError("index", f"{root} is not a directory")
+        raw = {}
         for dirpath, dirnames, filenames in os.walk(root):
             dirnames[:] = sorted(d for d in dirnames if d != "__pycache__")
             for fn in sorted(filenames):
@@ -367,14 +620,17 @@ class Index:
                     with open(path, encoding="utf-8") as f:
                         src = f.read()
                 try:
-                    tree = _canonicalise(ast.parse(src, filename=rel))
+                    tree = ast.parse(src, filename=rel)
                 except SyntaxError as exc:
                     raise AnalysisError("index", f"{rel} does not parse: {exc}")
                 parts = rel[:-3].split(os.sep)
                 if parts[-1] == "__init__":
                     parts = parts[:-1]
                 name = ".".join(parts)
-                self.modules[name] = ModuleInfo(name, rel, src, tree)
+                raw[name] = (rel, src, tree)
+        _inline_extracted_procedures({n: t for n, (_, _, t) in raw.items()})
+        for name, (rel, src, tree) in raw.items():
+            self.modules[name] = ModuleInfo(name, rel, src, _canonicalise(tree))
         for mod in self.modules.values():
             self._scan_module(mod)
 
